@@ -388,8 +388,8 @@ def _opt(v):
     return 'None' if v is None else '(Some %s)' % F.coq_text(v)
 
 
-def emit(vals):
-    out = [F.HEADER]
+def emit(vals, gen_text=None):
+    out = [F.HEADER, 'Require Import Verif.Model.C18_base.\n']
     for k in ('cfg_plain', 'cfg_tweens', 'cfg_derivers'):
         db, da, f, l = vals[k]
         out.append('Definition %s_raw : (option text * option text * text * text) := (%s, %s, %s, %s).\n'
@@ -404,4 +404,8 @@ def emit(vals):
         out.append('Definition %s : list text := %s.\n' % (k, F.coq_texts(vals[k])))
     out.append('Definition dv_default_decls : list (text * option text * option text) := [%s].\n'
                % '; '.join('(%s, %s, %s)' % (F.coq_text(n), _opt(u), _opt(o)) for n, u, o in vals['dv_default_decls']))
+    if gen_text is not None:
+        out.append('\n(* ---- regenerated from src/pyramid/util.py, config/tweens.py, config/views.py by harness/c18/translate.py:\n'
+                   '   control flow translated mechanically, leaves through the primitive table (see that file) ---- *)\n')
+        out.append(gen_text)
     return ''.join(out)
